@@ -7,16 +7,29 @@ scrambled global `random` state and repeated calls; the schedule that the real p
 (pid / start time / checksum of the reduced array logged by the statistic) and fed, with the index lists drawn by the
 real `random` module, to the Lean driver (model `compute` at Float).  All real outputs of one configuration must be
 bit-identical and within 1e-12 of the model and of the executable spec formula.
-Search: the property itself on the real code with references computed here (numpy, `math.fsum`), never the model.
+Search: the property itself on the real code with references computed here, never the model:
+  * single calls: the delete-d formula evaluated in exact rational arithmetic (`fractions`) on the subsample
+    statistics of the same seeded draws, determinism across num_cores / global state, data untouched;
+  * sessions: ONE long-lived Jackknife object serving a sequence of calls with arrays of different lengths and
+    shapes, different statistics and num_cores; every call is compared with the formula for the CURRENT array; a
+    failure that disappears on a fresh object is reported as `instance-reuse-...` with the whole (minimised) history,
+    after it has been reproduced in a new process;
+  * magnitude sweeps: c = +-2^k for k over [-996, 996] (c*x exact) and shifts +-2^j up to 2^40 (x+s exact), data with
+    tiny relative spread: the exact formula, the scaling law est(c x) = |c| est(x) (to a few ulp, since scaling by a
+    power of two is exact in every floating-point step) and the shift law, each with a tolerance derived from the
+    rounding of the statistic's own values - no absolute floor, so a hidden absolute or relative tolerance shows.
 """
 import json
 import math
 import os
 import random
+import subprocess
+import sys
 import tempfile
 import time
 import warnings
 import zlib
+from fractions import Fraction
 
 import numpy as np
 
@@ -130,7 +143,7 @@ class Cfg:
                    float(j["frac"]), int(j["N"]), int(j["seed"]))
 
 
-def gen_cfg(rng, want_d1=None, allow_mut=True, small=False):
+def gen_cfg(rng, want_d1=None, allow_mut=True, small=False, magnitude=False):
     two_d = rng.random() < 0.45
     n = rng.randint(3, 14 if small else 60)
     if want_d1 is None:
@@ -158,7 +171,39 @@ def gen_cfg(rng, want_d1=None, allow_mut=True, small=False):
         base[:, 1] = np.abs(base[:, 1]) + 0.5  # positive weights
     layout = rng.choice(["c", "c", "f", "strided"])
     seed = rng.choice([42, 0, rng.randint(-5, 5), rng.randint(0, 2 ** 31), rng.randint(-2 ** 40, 2 ** 40)])
+    if magnitude and base.dtype == np.float64:
+        base = rescale(rng, base, kind)
     return Cfg(base, layout, kind, frac, N, seed)
+
+
+def rescale(rng, base, kind):
+    """move order-one data to another magnitude regime: multiply by +-2^k (exact) or add +-2^j (exact for the
+    dyadic / short-mantissa data generated here; otherwise simply other data)"""
+    if kind == "wmean" or rng.random() < 0.6:
+        k = rng.choice([-1, 1]) * rng.randint(18, 400)
+        return base * math.ldexp(rng.choice([-1.0, 1.0]), k)
+    return base + math.ldexp(rng.choice([-1.0, 1.0]), rng.randint(12, 40))
+
+
+def gen_cfg_for_object(rng, frac, N, seed, avoid_n=None, lo=3, hi=60, allow_mut=False, allow_short=True):
+    """another array (other length / shape / statistic) for an object that already exists with (frac, N, seed)"""
+    cfg = gen_cfg(rng, allow_mut=allow_mut, small=False)
+    good = [n for n in range(lo, hi + 1) if int(frac * n) >= 1 and n != avoid_n]
+    short = [n for n in range(lo, hi + 1) if int(frac * n) < 1]
+    if good and not (allow_short and short and rng.random() < 0.12):
+        # prefer a length whose d differs from the one the object saw before
+        dprev = None if avoid_n is None else int(frac * avoid_n)
+        diff = [n for n in good if int(frac * n) != dprev]
+        n = rng.choice(diff or good)
+    elif short:
+        n = rng.choice(short)
+    else:
+        n = rng.randint(lo, hi)
+    reps = -(-n // cfg.n)
+    base = np.concatenate([cfg.base + (0.25 * r if cfg.base.dtype == np.float64 else r) for r in range(reps)])[:n].copy()
+    if cfg.kind == "wmean":
+        base[:, 1] = np.abs(base[:, 1]) + 0.5
+    return Cfg(base, cfg.layout, cfg.kind, frac, N, seed)
 
 
 # ------------------------------------------------------------------ running the real code
@@ -242,7 +287,9 @@ def enc_line(cfg, draws, sched):
 
 
 def tol(*xs):
-    return 1e-12 * max([1.0] + [abs(x) for x in xs])
+    """1e-12 relative to the size of the subsample statistics / the estimate (no absolute floor: data of any
+    magnitude are compared at the same relative accuracy)"""
+    return 1e-12 * max([abs(x) for x in xs] + [5e-324])
 
 
 # ------------------------------------------------------------------ correspondence (tie C)
@@ -274,6 +321,9 @@ def correspond(ctx):
     cfgs = [Cfg.from_json(c) for c in corpus()]
     for i in range(ncfg):
         cfgs.append(gen_cfg(rng, want_d1=(i % 3 == 0)))
+    # the same kind of configurations at other magnitudes (tiny, huge, far from zero relative to the spread)
+    for i in range(ctx.n(2, 10)):
+        cfgs.append(gen_cfg(rng, magnitude=True))
     # one inadmissible configuration (delete fraction too small -> d = 0 -> the call raises)
     bad = gen_cfg(rng, want_d1=True, allow_mut=False)
     bad.frac = 0.5 / bad.n
@@ -298,17 +348,32 @@ def correspond(ctx):
             scramble_global(rng)
             slow = rng.choice([0, 1, 2]) if cfg.kind != "slowmean" else 2
             runs.append((cores, run_real(cfg, cores, slow=slow), "fresh"))
-        # repeated calls on ONE object, another call (other data, other state) in between
+        # ONE long-lived object: this configuration, then another array (other length / shape / statistic), then this
+        # configuration again; every call (the intermediate one too) is compared with the model for ITS array
         from sparkx.Jackknife import Jackknife
         obj = Jackknife(cfg.frac, cfg.N, cfg.seed)
         c1, c2 = rng.choice(cores_list), rng.choice(cores_list)
         scramble_global(rng)
         runs.append((c1, run_real(cfg, c1, slow=1, obj=obj), "object-first"))
-        other = gen_cfg(rng, allow_mut=False, small=True)
-        other.frac, other.N, other.seed = cfg.frac, cfg.N, cfg.seed
-        other.d = int(other.frac * other.n)
+        other = gen_cfg_for_object(rng, cfg.frac, cfg.N, cfg.seed, avoid_n=cfg.n)
+        co = rng.choice([1, 2, 3])
         scramble_global(rng)
-        run_real(other, rng.choice([1, 3]), obj=obj, want_log=False)
+        ro = run_real(other, co, obj=obj)
+        if other.d < 1:
+            lines.append(enc_line(other, [], [(0, i) for i in range(other.N)]))
+            meta.append((other, co, ro, None, None, "raise"))
+        elif "err" in ro:
+            ctx.brk("correspondence-broken", f"long-lived object: call raised {ro['msg']!r} for an admissible array "
+                                             f"(n={other.n}, d={other.d}) after a call with n={cfg.n}, d={cfg.d}",
+                    case=dict(first=cfg.as_json(), then=other.as_json()))
+        else:
+            dro = draws_for(other.seed, other.n, other.d, other.N)
+            so = observed_schedule(other, data_after_probe(other), dro, ro["entries"])
+            if so is None:
+                so = [(0, i) for i in range(other.N)]
+                ctx.count("schedule-not-resolved")
+            lines.append(enc_line(other, dro, so))
+            meta.append((other, co, ro, so, dro, "object-other-array"))
         scramble_global(rng)
         runs.append((c2, run_real(cfg, c2, slow=0, obj=obj), "object-again"))
         vals = set()
@@ -350,6 +415,7 @@ def correspond(ctx):
         ctx.count(f"kind={cfg.kind}")
         ctx.count(f"ndim={cfg.base.ndim}/layout={cfg.layout}/{cfg.base.dtype}")
         ctx.count("d=1" if cfg.d == 1 else "d>1")
+        ctx.count("data-regime=" + regime(np.asarray(cfg.base, dtype="float64").reshape(-1).tolist()))
         ctx.count(f"workers_used={workers_used}")
         ctx.count("completion-out-of-task-order" if ooo else "completion-in-task-order")
         ctx.count(f"call={how}")
@@ -379,43 +445,135 @@ def correspond(ctx):
 
 
 # ------------------------------------------------------------------ oracle on the real code (independent of the model)
-def reference(cfg, base=None):
-    """delete-d formula from the same draws, computed here with numpy + fsum"""
-    data = np.array(cfg.base if base is None else base, copy=True)
+TWO = Fraction(2)
+ULP = 2.0 ** -53
+
+
+def regime(xs):
+    """magnitude class of a data set (used in violation keys and in the evidence histogram)"""
+    xs = [float(x) for x in xs]
+    M = max(abs(x) for x in xs)
+    spread = max(xs) - min(xs)
+    if M == 0.0:
+        return "all-zero"
+    if spread > 0 and M / spread > 2.0 ** 12:
+        return "offset/spread>2^12"
+    if M < 2.0 ** -20:
+        return "magnitude<2^-20"
+    if M > 2.0 ** 20:
+        return "magnitude>2^20"
+    return "order-one"
+
+
+def cfg_regime(cfg):
+    return regime(np.asarray(cfg.base, dtype="float64").reshape(-1).tolist())
+
+
+def subsample_stats(cfg):
+    """the N delete-d subsample statistics of the CURRENT array: same seeded draws, the user's statistic evaluated
+    here in the parent (bit-identical to what a worker computes: same function, same C-ordered reduced array)"""
+    data = np.array(cfg.base, copy=True)
+    draws = draws_for(cfg.seed, cfg.n, cfg.d, cfg.N)
+    return [ref_stat(np.delete(data, idx, axis=0), cfg.kind) for idx in draws]
+
+
+def exact_formula(cfg, ths=None):
+    """delete-d formula in exact rational arithmetic over the subsample statistics.
+    Returns dict(E, tol, assertable, ths): E = sqrt((n-d)/(d N) sum (theta_i - mean)^2) (correctly rounded from the
+    exact rational), tol = rigorous bound on what a floating-point evaluation of the same formula may differ by:
+    the float mean of the theta_i is off by at most e = (N+2) 2^-53 max|theta|, which changes the estimate by at most
+    sqrt(f N) e; every other step is a few ulp.  assertable = the squared deviations are inside the double range (so no
+    evaluation of the formula under/overflows) and the tolerance is small against E."""
+    ths = subsample_stats(cfg) if ths is None else ths
     n, d, N = cfg.n, cfg.d, cfg.N
-    draws = draws_for(cfg.seed, n, d, N)
-    ths = [ref_stat(np.delete(data, idx, axis=0), cfg.kind) for idx in draws]
-    m = math.fsum(ths) / N
-    return math.sqrt((n - d) / (d * N) * math.fsum((t - m) ** 2 for t in ths)), ths
+    if not all(math.isfinite(t) for t in ths):
+        return dict(E=None, tol=None, assertable=False, ths=ths, why="statistic not finite")
+    F = [Fraction(t) for t in ths]
+    m = sum(F) / N
+    devs = [(t - m) ** 2 for t in F]
+    SD = sum(devs)
+    f = Fraction(n - d, d * N)
+    E2 = f * SD
+    maxD = max(devs)
+    tmax = max(abs(t) for t in ths)
+    if maxD != 0 and not (TWO ** -900 <= maxD <= TWO ** 900 and tmax < 2.0 ** 900):
+        return dict(E=None, tol=None, assertable=False, ths=ths, why="squared deviations outside the double range")
+    E = exact_sqrt(E2)
+    e = (N + 2) * ULP * tmax
+    tol_ = math.sqrt(float(f) * N) * e + 64 * ULP * E
+    return dict(E=E, tol=tol_, assertable=(E == 0.0 or tol_ <= 0.25 * E), ths=ths,
+                why="rounding of the statistic's values comparable to their spread")
+
+
+def exact_sqrt(q):
+    """float nearest to sqrt of a non-negative Fraction inside the double range (integer arithmetic, no under/overflow
+    on the way)"""
+    if q == 0:
+        return 0.0
+    sh = 0
+    # scale by 4^sh so that the integer square root carries > 64 significant bits
+    num, den = q.numerator, q.denominator
+    while num.bit_length() - den.bit_length() < 130:
+        num <<= 2
+        sh += 1
+    return math.ldexp(float(math.isqrt(num // den)), -sh)
+
+
+def step_problem(cfg, r):
+    """one call of the real code against the property, for the array it was given.  None or (clause, what, detail)."""
+    if cfg.d < 1:
+        if "err" not in r:
+            return ("inadmissible-not-raised", f"n={cfg.n}, fraction {cfg.frac}: d = 0 but the call returned {r['value']!r}",
+                    dict(code=r["value"]))
+        return None
+    if "err" in r:
+        return ("admissible-call-raised", f"n={cfg.n} d={cfg.d}: admissible but the call raised {r['msg']!r}", dict(msg=r["msg"]))
+    if cfg.kind != "mutmean" and (not np.array_equal(r["after"], cfg.base) or r.get("padding_ok") is False):
+        return ("data-modified", "the data array was modified by the call", {})
+    ex = exact_formula(cfg)
+    if not ex["assertable"]:
+        return None
+    v = r["value"]
+    if not (math.isfinite(v) and abs(v - ex["E"]) <= ex["tol"]):
+        return ("formula", f"n={cfg.n} d={cfg.d} N={cfg.N} ({cfg.kind}, {cfg_regime(cfg)}): code returns {v!r}, delete-d formula "
+                           f"sqrt((n-d)/(d N) sum (theta_i-mean)^2) in exact arithmetic = {ex['E']!r} (tolerance {ex['tol']:.3g})",
+                dict(code=v, expected=ex["E"], tolerance=ex["tol"], thetas=ex["ths"]))
+    return None
+
+
+def formula_key(cfg):
+    rg = cfg_regime(cfg)
+    if rg == "order-one":
+        return "formula/d=1" if cfg.d == 1 else "formula/d>1"
+    return "formula/" + rg
 
 
 def oracle_check(cfg, rng, cores_list=None):
     """returns [] or a list of (key, what, detail) — the property failing on the REAL code for this configuration"""
     out = []
-    if cfg.d < 1 or cfg.kind == "mutmean":
+    if cfg.kind == "mutmean":
         return out
     cores_list = cores_list or [1, rng.choice([2, 3, 4, 16])]
-    ref, ths = reference(cfg)
-    scale = max(abs(t) for t in ths)
     vals = []
     for cores in cores_list:
         scramble_global(rng)
         r = run_real(cfg, cores, slow=rng.choice([0, 1]), want_log=False)
+        pr = step_problem(cfg, r)
+        if pr:
+            key = formula_key(cfg) if pr[0] == "formula" else (pr[0] + ("/" + cfg.kind if pr[0] == "data-modified" else ""))
+            out.append((key, pr[1], dict(pr[2], num_cores=cores)))
+            return out
         if "err" in r:
-            out.append(("admissible-call-raised", f"d={cfg.d} admissible but the call raised {r['msg']!r}", dict(num_cores=cores)))
             return out
         vals.append((cores, r["value"]))
-        if not np.array_equal(r["after"], cfg.base) or r.get("padding_ok") is False:
-            out.append((f"data-modified/{cfg.kind}", "the data array was modified by the call", dict(num_cores=cores)))
     v0 = vals[0][1]
     if any(f2h(v) != f2h(v0) for _, v in vals):
         out.append(("determinism/num_cores-or-global-rng", f"outputs differ between runs: {vals}", dict(runs=vals)))
-    if abs(v0 - ref) > 1e-9 * max(abs(ref), abs(v0)) + 1e-12 * scale:
-        key = "formula/d=1" if cfg.d == 1 else "formula/d>1"
-        out.append((key, f"n={cfg.n} d={cfg.d} N={cfg.N}: code returns {v0!r}, delete-d formula "
-                         f"sqrt((n-d)/(d N) sum (theta_i-mean)^2) = {ref!r}", dict(code=v0, expected=ref, thetas=ths)))
+    if cfg_regime(cfg) != "order-one":
         return out
-    # scaling
+    ths = subsample_stats(cfg)
+    scale = max(abs(t) for t in ths)
+    # scaling with an arbitrary (not power-of-two) factor
     h = HOMOG.get(cfg.kind)
     if h and cfg.base.dtype == np.float64:
         c = rng.choice([-3.0, 0.5, 2.0, -0.25, 8.0])
@@ -437,6 +595,287 @@ def oracle_check(cfg, rng, cores_list=None):
     return out
 
 
+# ------------------------------------------------------------------ long-lived objects
+class Session:
+    """one Jackknife(frac, N, seed) object and the calls it serves, in order: [(Cfg, num_cores)]"""
+
+    def __init__(self, frac, N, seed, steps):
+        self.frac, self.N, self.seed, self.steps = frac, N, seed, steps
+
+    def as_json(self, failing_step=None):
+        return dict(mode="session", frac=self.frac, N=self.N, seed=self.seed, failing_step=failing_step,
+                    steps=[dict(data=c.base.tolist(), dtype=str(c.base.dtype), layout=c.layout, kind=c.kind, num_cores=k,
+                                n=c.n, d=c.d) for c, k in self.steps])
+
+    @staticmethod
+    def from_json(j):
+        fr, N, sd = float(j["frac"]), int(j["N"]), int(j["seed"])
+        return Session(fr, N, sd, [(Cfg(np.array(st["data"], dtype=st.get("dtype", "float64")), st.get("layout", "c"),
+                                        st["kind"], fr, N, sd), int(st["num_cores"])) for st in j["steps"]])
+
+    def canon(self):
+        return (self.frac, self.N, self.seed, tuple((c.canon(), k) for c, k in self.steps))
+
+
+def gen_session(rng, thorough=False):
+    frac = rng.choice([0.1, 0.2, 0.25, 0.3, 0.4, 0.5, 0.6, round(rng.uniform(0.05, 0.9), 3)])
+    N = rng.randint(4, 24)
+    seed = rng.choice([42, 7, rng.randint(-5, 5), rng.randint(0, 2 ** 31)])
+    steps = []
+    prev_n = None
+    for _ in range(rng.randint(3, 5)):
+        cfg = gen_cfg_for_object(rng, frac, N, seed, avoid_n=prev_n, lo=3, hi=120 if rng.random() < 0.5 else 40)
+        cores = rng.choice([1, 2, 3, 4] + ([8, 16] if thorough else []))
+        steps.append((cfg, cores))
+        prev_n = cfg.n
+    return Session(frac, N, seed, steps)
+
+
+def run_session(sess, rng):
+    """all calls on ONE object; returns the first failing step (index, clause, what, detail) or None"""
+    from sparkx.Jackknife import Jackknife
+    obj = Jackknife(sess.frac, sess.N, sess.seed)
+    for k, (cfg, cores) in enumerate(sess.steps):
+        scramble_global(rng)
+        r = run_real(cfg, cores, obj=obj, want_log=False)
+        pr = step_problem(cfg, r)
+        if pr:
+            return (k,) + pr
+    return None
+
+
+def session_check(sess, rng):
+    """[] or [(key, what, replay_input, detail)]"""
+    bad = run_session(sess, rng)
+    if bad is None:
+        return []
+    k, clause, what, detail = bad
+    cfg, cores = sess.steps[k]
+    scramble_global(rng)
+    fresh = step_problem(cfg, run_real(cfg, cores, want_log=False))
+    if fresh is not None:
+        # the call fails on a brand-new object too: not a matter of the object's history
+        key = formula_key(cfg) if fresh[0] == "formula" else fresh[0]
+        return [(key, fresh[1], cfg.as_json(), fresh[2])]
+    # minimise the history: drop earlier calls while the last one still fails in the same way
+    hist = Session(sess.frac, sess.N, sess.seed, sess.steps[:k + 1])
+    changed = True
+    while changed and len(hist.steps) > 1:
+        changed = False
+        for j in range(len(hist.steps) - 1):
+            cand = Session(hist.frac, hist.N, hist.seed, hist.steps[:j] + hist.steps[j + 1:])
+            b = run_session(cand, rng)
+            if b is not None and b[0] == len(cand.steps) - 1 and b[1] == clause:
+                hist = cand
+                changed = True
+                break
+    b = run_session(hist, rng)
+    if b is not None:
+        what, detail = b[2], b[3]
+    inp = hist.as_json(failing_step=len(hist.steps) - 1)
+    detail = dict(detail, fresh_object="same call on a new Jackknife object satisfies the property",
+                  history=[dict(n=c.n, d=c.d, kind=c.kind, ndim=c.base.ndim, num_cores=kk) for c, kk in hist.steps],
+                  reproduced_in_new_process=reproduces_in_new_process(inp))
+    return [(f"instance-reuse-{clause}",
+             f"call {len(hist.steps)} on a re-used Jackknife object (earlier arrays of length "
+             f"{[c.n for c, _ in hist.steps[:-1]]}, now {hist.steps[-1][0].n}): {what}; a fresh object is right",
+             inp, detail)]
+
+
+def reproduces_in_new_process(inp):
+    fd, path = tempfile.mkstemp(prefix="c15_replay_", suffix=".json")
+    try:
+        with os.fdopen(fd, "w") as fh:
+            json.dump(dict(property="C15", input=inp), fh)
+        r = subprocess.run([sys.executable, str(common.VERIF / "harness" / "main.py"), "C15", "--replay", path],
+                           capture_output=True, text=True, timeout=600)
+        return r.returncode == 1 and "VIOLATION" in r.stdout
+    except Exception as e:  # noqa: BLE001
+        return f"could not be re-run: {type(e).__name__}"
+    finally:
+        if os.path.exists(path):
+            os.unlink(path)
+
+
+# ------------------------------------------------------------------ magnitude sweeps
+K_BINS = [-996, -700, -440, -300, -150, -80, -50, -36, -28, -22, -16, -8, -1,
+          1, 8, 16, 22, 28, 36, 50, 80, 150, 300, 440, 700, 996]
+
+
+def gen_sweep_base(rng, i):
+    """order-one dyadic data (multiples of 1/16 below 32): 2^k x and x + 2^j are exact for every k, j used"""
+    two_d = (i % 2 == 1)
+    n = rng.randint(6, 40)
+    d = rng.randint(1, n - 1) if i % 3 else 1
+    frac = (d + 0.5) / n
+    N = rng.randint(4, 24)
+    kind = rng.choice(["wmean", "rms", "mean", "maxabs"] if two_d else ["mean", "rms", "maxabs", "slowmean"])
+    if i < 2:
+        kind = "mean" if i == 0 else "wmean"
+    ncols = 2 if two_d else None
+    cnt = n * (ncols or 1)
+    if rng.random() < 0.3 and kind != "wmean":
+        # tiny relative spread around an order-one level
+        lvl = rng.choice([1.0, 8.0, -16.0])
+        vals = [lvl + rng.randint(-400, 400) * 2.0 ** -rng.choice([20, 30]) for _ in range(cnt)]
+    else:
+        vals = [rng.randint(-400, 400) / 16.0 for _ in range(cnt)]
+    base = np.array(vals, dtype="float64").reshape((n, ncols) if two_d else (n,))
+    if kind == "wmean":
+        base[:, 1] = np.abs(base[:, 1]) + 0.5
+    return Cfg(base, rng.choice(["c", "f", "strided"]), kind, frac, N, rng.choice([42, rng.randint(0, 2 ** 31)]))
+
+
+def law_range_ok(cfg, k, ths):
+    """may every floating-point step of statistic and estimate be scaled by 2^k without leaving the normal range?"""
+    xs = [abs(float(x)) for x in np.asarray(cfg.base, dtype="float64").reshape(-1) if x != 0]
+    F = [Fraction(t) for t in ths]
+    m = sum(F) / len(F)
+    devs = [abs(t - m) for t in F if t != m]
+    mags = [Fraction(x) for x in xs] + devs + [abs(t) for t in F if t != 0]
+    if not mags:
+        return False
+    lo, hi = min(mags) * TWO ** k, max(mags) * TWO ** k
+    return TWO ** -440 <= lo and hi <= TWO ** 440
+
+
+def magnitude_check(cfg, rng, dense=False):
+    """[] or [(key, what, replay_input, detail)]; counts what it could assert in `stats`"""
+    out, stats = [], {}
+
+    def cnt(t):
+        stats[t] = stats.get(t, 0) + 1
+    cores = rng.choice([1, 2, 3])
+    scramble_global(rng)
+    r0 = run_real(cfg, cores, want_log=False)
+    pr = step_problem(cfg, r0)
+    if pr or "err" in r0:
+        if pr:
+            out.append((formula_key(cfg) if pr[0] == "formula" else pr[0], pr[1], cfg.as_json(), pr[2]))
+        return out, stats
+    v0 = r0["value"]
+    ths0 = subsample_stats(cfg)
+    seen = set()
+    law = dict(scale_ok=[], scale_bad=[], shift_ok=[], shift_bad=[])  # exponents at which each law held / failed
+    # ---- scaling by +-2^k
+    ks = []
+    for a, b in zip(K_BINS[:-1], K_BINS[1:]):
+        for _ in range(3 if dense else 1):
+            ks.append(rng.randint(a, b))
+    if HOMOG.get(cfg.kind):
+        for k in ks:
+            if k == 0:
+                continue
+            sign = rng.choice([-1.0, 1.0])
+            c = math.ldexp(sign, k)
+            sb = cfg.base * c
+            if not (np.all(np.isfinite(sb)) and np.array_equal(sb / c, cfg.base)):
+                cnt("scale/not-exactly-representable")
+                continue
+            sc = Cfg(sb, cfg.layout, cfg.kind, cfg.frac, cfg.N, cfg.seed)
+            scramble_global(rng)
+            r = run_real(sc, rng.choice([1, 2, 3]), want_log=False)
+            if not law_range_ok(cfg, k, ths0):
+                cnt("scale/outside-float-range(run, not asserted)")
+                continue
+            rg = cfg_regime(sc)
+            prs = step_problem(sc, r)
+            if prs:
+                key = formula_key(sc) if prs[0] == "formula" else prs[0]
+                if key not in seen:
+                    seen.add(key)
+                    out.append((key, prs[1], sc.as_json(), prs[2]))
+                if "err" in r:
+                    continue
+            want = math.ldexp(v0, k)
+            got = r["value"]
+            cnt("scale/asserted")
+            if got == want:
+                cnt("scale/bit-exact")
+            good = math.isfinite(got) and abs(got - want) <= 8 * 2 * ULP * want
+            law["scale_ok" if good else "scale_bad"].append(k)
+            if not good:
+                key = f"scaling/{cfg.kind}/{rg}"
+                if key not in seen:
+                    seen.add(key)
+                    out.append((key, f"estimate(c x) = {got!r} but |c| estimate(x) = {want!r} for c = {'-' if sign < 0 else ''}2^{k} "
+                                     f"(c x is exact; statistic {cfg.kind})",
+                                dict(mode="scale", base=cfg.as_json(), k=k, sign=sign), dict(c=c, scaled=got, base=v0, expected=want)))
+    # ---- shifting by +-2^j (statistic = mean)
+    if cfg.kind in ("mean", "slowmean"):
+        js = list(range(0, 41, 2)) if dense else [0, 4, 10, 14, 17, 20, 24, 30, 35, 40]
+        f = (cfg.n - cfg.d) / (cfg.d * cfg.N)
+        for j in js:
+            s = math.ldexp(rng.choice([-1.0, 1.0]), j)
+            sb = cfg.base + s
+            if not np.array_equal(sb - s, cfg.base):
+                cnt("shift/not-exactly-representable")
+                continue
+            sh = Cfg(sb, cfg.layout, cfg.kind, cfg.frac, cfg.N, cfg.seed)
+            scramble_global(rng)
+            r = run_real(sh, rng.choice([1, 2, 3]), want_log=False)
+            rg = cfg_regime(sh)
+            prs = step_problem(sh, r)
+            if prs:
+                key = formula_key(sh) if prs[0] == "formula" else prs[0]
+                if key not in seen:
+                    seen.add(key)
+                    out.append((key, prs[1], sh.as_json(), prs[2]))
+                if "err" in r:
+                    continue
+            # |est(theta~) - est(theta)| <= sqrt(f) ||theta~ - theta||_2: rounding of the shifted statistic's values
+            ths = subsample_stats(sh)
+            eth = max(abs(Fraction(t) - (Fraction(t0) + Fraction(s))) for t, t0 in zip(ths, ths0))
+            tmax = max(abs(t) for t in ths)
+            tl = math.sqrt(f * cfg.N) * (float(eth) + (cfg.N + 2) * ULP * (tmax + max(abs(t) for t in ths0))) + 64 * ULP * v0
+            if tl > 0.25 * v0:
+                cnt("shift/rounding-of-the-statistic-dominates(run, not asserted)")
+                continue
+            cnt("shift/asserted")
+            got = r["value"]
+            good = math.isfinite(got) and abs(got - v0) <= tl
+            law["shift_ok" if good else "shift_bad"].append(j)
+            if not good:
+                key = f"shift-mean/{rg}"
+                if key not in seen:
+                    seen.add(key)
+                    out.append((key, f"estimate(x + s) = {got!r} but estimate(x) = {v0!r} for s = {s!r} (x + s is exact; tolerance {tl:.3g})",
+                                dict(mode="shift", base=cfg.as_json(), s=s), dict(s=s, shifted=got, base=v0, tolerance=tl)))
+    for o in out:
+        if o[0].startswith("scaling/"):
+            o[3]["law_failed_for_c=2^k,k="] = sorted(law["scale_bad"])
+            o[3]["law_held_for_c=2^k,k="] = sorted(law["scale_ok"])
+        if o[0].startswith("shift-mean/"):
+            o[3]["law_failed_for_s=2^j,j="] = sorted(law["shift_bad"])
+            o[3]["law_held_for_s=2^j,j="] = sorted(law["shift_ok"])
+    return out, stats
+
+
+def law_replay(inp, rng):
+    """re-check one scaling / shift law instance from a replay file"""
+    cfg = Cfg.from_json(inp["base"])
+    v0 = run_real(cfg, 2, want_log=False)["value"]
+    if inp["mode"] == "scale":
+        k, sign = int(inp["k"]), float(inp["sign"])
+        sc = Cfg(cfg.base * math.ldexp(sign, k), cfg.layout, cfg.kind, cfg.frac, cfg.N, cfg.seed)
+        got = run_real(sc, 2, want_log=False).get("value")
+        want = math.ldexp(v0, k)
+        if got is None or not (math.isfinite(got) and abs(got - want) <= 16 * ULP * want):
+            return [(f"scaling/{cfg.kind}/{cfg_regime(sc)}", f"estimate(c x) = {got!r} but |c| estimate(x) = {want!r} (c = {sign}*2^{k})")]
+        return []
+    s = float(inp["s"])
+    sh = Cfg(cfg.base + s, cfg.layout, cfg.kind, cfg.frac, cfg.N, cfg.seed)
+    got = run_real(sh, 2, want_log=False).get("value")
+    ths0, ths = subsample_stats(cfg), subsample_stats(sh)
+    f = (cfg.n - cfg.d) / (cfg.d * cfg.N)
+    eth = max(abs(Fraction(t) - (Fraction(t0) + Fraction(s))) for t, t0 in zip(ths, ths0))
+    tl = math.sqrt(f * cfg.N) * (float(eth) + (cfg.N + 2) * ULP * (max(abs(t) for t in ths) + max(abs(t) for t in ths0))) + 64 * ULP * v0
+    if got is None or not (math.isfinite(got) and abs(got - v0) <= tl):
+        return [(f"shift-mean/{cfg_regime(sh)}", f"estimate(x + s) = {got!r} but estimate(x) = {v0!r} (s = {s!r}, tolerance {tl:.3g})")]
+    return []
+
+
+# ------------------------------------------------------------------ shrinking single-call failures
 def shrink(cfg, key, rng):
     """smaller n / N that still shows the same failure"""
     cur = cfg
@@ -470,32 +909,70 @@ def search(ctx, budget_s):
     t0 = time.time()
     n = 0
     found = set()
+    HOW = "./check C15 --replay <this file>"
 
     def report(cfg, probs):
         for key, what, detail in probs:
             if key in found:
                 continue
             found.add(key)
-            small = shrink(cfg, key, rng) if key.startswith("formula") else cfg
+            small = shrink(cfg, key, rng) if key.startswith("formula/d") else cfg
             p2 = [p for p in oracle_check(small, rng, cores_list=[1, 2]) if p[0] == key] or [(key, what, detail)]
-            ctx.violation(key, p2[0][1], dict(input=small.as_json(), detail=p2[0][2],
-                                              how_to_replay="./check C15 --replay <this file>"))
+            ctx.violation(key, p2[0][1], dict(input=small.as_json(), detail=p2[0][2], how_to_replay=HOW))
+
+    def report4(probs):
+        for key, what, inp, detail in probs:
+            if key in found or sum(1 for k in found if k.split("/")[0] == key.split("/")[0]) >= 2:
+                continue  # one defect shows in many magnitude classes: two witnesses per clause are enough
+            found.add(key)
+            ctx.violation(key, what, dict(input=inp, detail=detail, how_to_replay=HOW))
     for case in corpus():
         cfg = Cfg.from_json(case)
         report(cfg, oracle_check(cfg, rng))
         n += 1
+    # (1) long-lived objects serving sequences of calls
+    ns = 0
+    for i in range(ctx.n(5, 25)):
+        sess = gen_session(rng, ctx.thorough)
+        probs = session_check(sess, rng)
+        ns += 1
+        ds = {c.d for c, _ in sess.steps}
+        ctx.case(("session", sess.canon()), len(ds) >= 2)
+        ctx.count("oracle/session-calls", len(sess.steps))
+        ctx.count(f"oracle/session-distinct-d={min(len(ds), 4)}")
+        if any(c.d < 1 for c, _ in sess.steps):
+            ctx.count("oracle/session-with-inadmissible-call")
+        report4(probs)
+        if any(k.startswith("instance-reuse") for k in found):
+            break
+    # (2) magnitude sweeps for the formula, the scaling law and the shift law
+    nm = 0
+    for i in range(ctx.n(3, 10)):
+        cfg = gen_sweep_base(rng, i)
+        probs, stats = magnitude_check(cfg, rng, dense=ctx.thorough)
+        nm += 1
+        for t, k in stats.items():
+            ctx.count("oracle/sweep/" + t, k)
+        ctx.case(("sweep", cfg.canon()), True)
+        report4(probs)
+        if len([k for k in found if k.split("/")[0] in ("formula", "scaling", "shift-mean")]) >= 4:
+            break
+    # (3) random single-call configurations, some of them at other magnitudes
     limit = 400 if ctx.thorough else 60
     while time.time() - t0 < budget_s and n < limit:
-        cfg = gen_cfg(rng, want_d1=(n % 3 == 0), allow_mut=False, small=(n % 2 == 0))
+        cfg = gen_cfg(rng, want_d1=(n % 3 == 0), allow_mut=False, small=(n % 2 == 0), magnitude=(n % 5 == 4))
         probs = oracle_check(cfg, rng)
         n += 1
         ctx.case(("oracle", cfg.canon()), True)
         ctx.count("oracle/d=1" if cfg.d == 1 else "oracle/d>1")
+        ctx.count("oracle/data-regime=" + cfg_regime(cfg))
         if probs:
             report(cfg, probs)
-            if len(found) >= 3:
+            if len(found) >= 5:
                 break
     ctx.cov["oracle_cases"] = n
+    ctx.cov["oracle_sessions"] = ns
+    ctx.cov["oracle_magnitude_sweeps"] = nm
 
 
 def corpus():
@@ -513,11 +990,26 @@ def replay(ctx, path):
     if not inp:
         print(f"[C15] replay file names a broken obligation, not an input: {d.get('broken')}")
         return 1
-    cfg = Cfg.from_json(inp)
-    probs = oracle_check(cfg, ctx.rng, cores_list=[1, 2, 5])
+    mode = inp.get("mode", "single")
+    if mode == "session":
+        sess = Session.from_json(inp)
+        bad = run_session(sess, ctx.rng)
+        probs = []
+        if bad is not None:
+            k, clause, what, _ = bad
+            cfg, cores = sess.steps[k]
+            fresh = step_problem(cfg, run_real(cfg, cores, want_log=False))
+            key = f"instance-reuse-{clause}" if fresh is None else clause
+            probs = [(key, f"call {k + 1} of {len(sess.steps)} on one Jackknife object: {what}" +
+                      ("; the same call on a fresh object is right" if fresh is None else ""))]
+    elif mode in ("scale", "shift"):
+        probs = law_replay(inp, ctx.rng)
+    else:
+        cfg = Cfg.from_json(inp)
+        probs = [(k, w) for k, w, _ in oracle_check(cfg, ctx.rng, cores_list=[1, 2, 5])]
     if probs:
         print(f"VIOLATION property=C15 replay={path}")
-        for key, what, _ in probs:
+        for key, what in probs:
             print(f"[{key}] {what}")
         return 1
     print("[C15] replay: property holds on this input now")
